@@ -32,6 +32,8 @@ FIXED = [
   "a press of key code 767 (OsCode::KEY_MAX) indexed the 767-column layout row out of bounds"),
  ("F1", "C02", "fix: transparent and use-defsrc actions on a chords-v2 virtual coordinate",
   "`use-defsrc` inside a defchordsv2 action indexed src_keys[852]; `_` carried into defchordsv2 through an alias failed the assertion in resolve_coord (F1, F2)"),
+ ("F27", "C03", "fix: the error span of an unterminated multi-line string or comment",
+  "a config ending in an unterminated `r#\"...` string or `#|` comment whose last character is multi-byte produced a span ending inside that character; rendering the diagnostic panicked in miette"),
 ]
 log = subprocess.check_output(["git", "-C", "/repo", "log", "--format=%h %s"]).decode().splitlines()
 out = []
